@@ -516,6 +516,7 @@ class Ctx:
         self._atom_cache: Dict[tuple, Any] = {}
         self._enum_cache: Dict[tuple, int] = {}
         self._created: Dict[str, Any] = {}
+        self.hints: List[Any] = []
         self.model = None
         if mode == 'sym':
             self.s = solver if solver is not None else z3.Solver()
@@ -874,9 +875,20 @@ class Ctx:
 
     def _grid_model(self, *extra) -> dict:
         """A model of pc (and extra); reals on the dyadic grid whenever that is cheap to obtain (DESIGN 3.4)."""
-        if self._check(*extra) != 'sat':
-            raise PathAbort()
-        m = self._last_model
+        # counterexample models are first sought inside the harness' "reasonable region" hints (e.g. values whose floating point
+        # replay is faithful); the claim itself is not restricted by them
+        m = None
+        if self.hints:
+            try:
+                if self._check(*extra, *self.hints) == 'sat':
+                    m = self._last_model
+                    extra = tuple(extra) + tuple(self.hints)
+            except Inconclusive:
+                m = None
+        if m is None:
+            if self._check(*extra) != 'sat':
+                raise PathAbort()
+            m = self._last_model
         out = self._model_dict(m)
         if _dyadic(out):
             return out
